@@ -380,6 +380,14 @@ def classify(res, prop, h):
             inconclusive = True
             notes.append("built-in check failed inside the harness code (harness defect): %s @ %s" % (c["desc"], c["loc"]))
             continue
+        in_crate = re.match(r"src/\S+\.rs:\d+", c["loc"]) is not None
+        is_ptr = any(w in c["desc"] for w in ("dereference", "pointer", "free ", "double free", "misaligned", "null reference"))
+        if in_crate and not is_ptr and not c["desc"].startswith("unreachable"):
+            # an arithmetic overflow, unwrap on None, explicit panic ... inside the crate's own code: the
+            # operation under test panics on a valid input, which contradicts every property that
+            # specifies its result (confirmed by the native replay in the dev profile)
+            failures.append(dict(c, cls="panic"))
+            continue
         if prop in MEMSAFE_OWNERS:
             failures.append(dict(c, cls="builtin"))
         else:
